@@ -161,7 +161,16 @@ pub fn run_case(idx: usize, c: &PlanCase, focus: &str) -> Vec<Value> {
     let t0 = std::time::Instant::now();
     let r = guarded(move || data::encode_data(&inp, &l2, None, modes, false));
     let ms_enc = t0.elapsed().as_millis() as u64;
-    let (head2, _iters2) = hook_json(&take_plan_trace());
+    let enc_trace = take_plan_trace();
+    let enc_starts = enc_trace.iter().filter(|e| matches!(e, PlanEvent::Start { .. })).count();
+    let enc_steps: u64 = enc_trace
+        .iter()
+        .map(|e| match e {
+            PlanEvent::Iterate { stepped, switch_calls, .. } => (*stepped + 5 * *switch_calls) as u64,
+            _ => 0,
+        })
+        .sum();
+    let (head2, _iters2) = hook_json(&enc_trace);
     let eres = match r {
         Outcome::Val(Ok((cw, size))) => json!({"kind": "Ok", "size": size_name(size), "data": bytes_json(&cw)}),
         Outcome::Val(Err(e)) => json!({"kind": "Err", "err": format!("{:?}", e)}),
@@ -179,6 +188,8 @@ pub fn run_case(idx: usize, c: &PlanCase, focus: &str) -> Vec<Value> {
                                "prevAlive": prev_alive, "stepsBefore": steps_before, "start": head["start"], "ms": ms_plan,
                                "events": ch.iter().map(|i| { let mut e = i.clone(); e["ev"] = json!("Iterate"); e }).collect::<Vec<_>>()});
             if k == 0 {
+                // all planner work done by one encode_data() call (it must plan once, linearly)
+                r["enc"] = json!({"starts": enc_starts, "steps": enc_steps, "ms": ms_enc, "kind": eres["kind"].clone()});
                 r["inputHead"] = bytes_json(&c.input[..c.input.len().min(32)]);
                 r["list"] = json!(list.iter().count());
                 r["planKind"] = pres["kind"].clone();
@@ -200,7 +211,6 @@ pub fn run_case(idx: usize, c: &PlanCase, focus: &str) -> Vec<Value> {
             }
             out.push(r);
         }
-        let _ = ms_enc;
     } else {
         let mut r = base;
         r["id"] = json!(idx);
